@@ -28,6 +28,8 @@ func runC02(c *Ctx) {
 	R := c.R
 	R.Rule("height-refresh", "a node whose child field was stored has its height recomputed (calcHeight, after the last child store) before it flows upwards", 8)
 	R.Rule("rebalance-on-return", "a function that stored to a child field of the subtree root it returns, returns rebalance(root) or a rotation of it", 3)
+	R.Rule("max-helper", "typ.Max (which calcHeight uses for a node with two children) returns an argument that is >= all the others, under every ordering of its arguments (C20's row, re-run here)", 1)
+	c20MinMaxRows(c, "max-helper", false, true)
 	R.Rule("fresh-node-height", "every node allocated in the package starts with the cached height of its shape: the leaf height (empty+1) without children, calcHeight after the child stores otherwise", 1)
 	R.Rule("rotation-shape", "single rotations: the returned tree is (L n RL) r RR for a left rotation, LL l (LR n R) for a right rotation, in terms of the entry state", 2)
 	R.Rule("height-convention", "empty subtree = leaf height - 1; one child: 1 + its height; two children: 1 + max", 3)
